@@ -256,7 +256,8 @@ fn mat_p() -> BoxedStrategy<MatP> {
 }
 
 fn wallcons_p() -> BoxedStrategy<WallConsP> {
-    (proptest::collection::vec((any::<u16>(), dec3(0.005, 0.4)), 0..=5), dec2(0.1, 0.95))
+    // layer thickness: millimetres; one layer in twelve has thickness 0 (air chambers and membranes entered by their resistance)
+    (proptest::collection::vec((any::<u16>(), prop_oneof![11 => dec3(0.005, 0.4), 1 => Just(0.0f32)]), 0..=5), dec2(0.1, 0.95))
         .prop_map(|(layers, absorptance)| WallConsP { layers, absorptance })
         .boxed()
 }
@@ -288,7 +289,7 @@ fn win_p(p: Params) -> BoxedStrategy<WinP> {
         prop_oneof![2 => Just(0.0f32), 2 => dec2(0.01, 1.0)],
         prop_oneof![1 => Just(None), 8 => any::<u16>().prop_map(Some)],
         if p.unpositioned { prop_oneof![1 => Just(false), 8 => Just(true)].boxed() } else { Just(true).boxed() },
-        if p.overrides { opt(6, dec2(0.05, 6.0)) } else { Just(None).boxed() },
+        if p.overrides { opt(6, prop_oneof![3 => dec2(0.05, 6.0), 1 => (500i64..=60000).prop_map(|i| i as f32 / 10000.0)].boxed()) } else { Just(None).boxed() },
         if p.overrides { opt(6, dec2(0.0, 1.0)) } else { Just(None).boxed() },
     )
         .prop_map(|((fx, fy, fw, fh), setback, cons, positioned, over_u, over_fsh)| WinP {
@@ -314,7 +315,8 @@ fn elem_p(p: Params, max_windows: usize, bounds_weights: [u32; 4]) -> BoxedStrat
         if p.odd_tilts { prop_oneof![5 => Just(0.0f32), 2 => dec3(0.0, 0.999), 1 => Just(0.999f32)].boxed() } else { Just(0.0f32).boxed() },
         proptest::collection::vec(win_p(p), 0..=max_windows),
         if p.unpositioned { prop_oneof![1 => Just(false), 12 => Just(true)].boxed() } else { Just(true).boxed() },
-        if p.overrides { opt(8, dec2(0.05, 6.0)) } else { Just(None).boxed() },
+        // user U values: two decimals as the tools write them, one in four with four decimals (entered by hand)
+        if p.overrides { opt(8, prop_oneof![3 => dec2(0.05, 6.0), 1 => (500i64..=60000).prop_map(|i| i as f32 / 10000.0)].boxed()) } else { Just(None).boxed() },
     )
         .prop_map(|(bounds, cons, next_to, tilt_off, windows, positioned, over_u)| ElemP {
             bounds,
@@ -340,7 +342,8 @@ fn space_p(p: Params) -> BoxedStrategy<SpaceP> {
         ),
         // footprint sizes: usually whole centimetres, one in six with millimetres
         (dec2(-30.0, 30.0), dec2(-30.0, 30.0), prop_oneof![5 => dec2(2.0, 20.0), 1 => super::geom::dec3(2.0, 20.0)], prop_oneof![5 => dec2(2.0, 15.0), 1 => super::geom::dec3(2.0, 15.0)], prop_oneof![2 => Just(0.0f32), 1 => dec2(0.0, 359.0)]),
-        proptest::collection::vec(elem_p(p, 0, [2, 4, 2, 1]), 1..=2),
+        // floor slabs; one space in eight may have glazing in a floor (a glazed floor over a porch)
+        prop_oneof![7 => proptest::collection::vec(elem_p(p, 0, [2, 4, 2, 1]), 1..=2), 1 => proptest::collection::vec(elem_p(p, 1, [4, 2, 2, 1]), 1..=2)],
         prop_oneof![1 => Just(None), 5 => (elem_p(p, 1, [5, 1, 3, 1]), prop_oneof![3 => Just(true), 1 => Just(false)]).prop_map(Some)],
         // four side walls; one space in ten is only partly enclosed or has no side wall at all (a model being
         // entered element by element: space + slab + roof before the facades)
@@ -846,7 +849,7 @@ pub fn build(pl: &Plan) -> Model {
                 r2(s.rot),
                 [px, py, s.z],
                 vec![P2 { x: 0.0, y: 0.0 }, P2 { x: x1 - x0, y: 0.0 }, P2 { x: x1 - x0, y: s.d }, P2 { x: 0.0, y: s.d }],
-                None,
+                if e.windows.is_empty() { None } else { Some((x1 - x0, s.d)) },
                 None,
             );
         }
